@@ -13,11 +13,15 @@ ID = "C17"
 LEVEL = "exploration"
 RULE = ("case = (server kind: threaded / thread-pool / one-shot / forking; TCP loopback or unix socket; history <= 15 steps of "
         "connect / call / graceful close / abrupt close (RST) by up to 5 clients, an audit point, then server.close() at a "
-        "generated position and a second close()). oracle: after close() a new connection attempt is refused, every client "
+        "generated position - or, for the in-process threaded and pool servers, close() forced to run to completion between "
+        "the listener handing out a late client's connection and the accept loop seeing it (a harness-side listener wrapper "
+        "owns that schedule) - and a second close()). oracle: after close() a new connection attempt is refused, every client "
         "that was still connected gets EOFError on its next request well inside the bound (its own request timeout firing "
         "instead is the failure), each of their service instances' disconnect hook has run exactly once, the second close() "
         "raises nothing; at every audit point after clients have left, server.clients / fd_to_conn hold nothing for them and "
-        "the process's open descriptors equal baseline + listener + 2 per still-connected client; a one-shot server has "
+        "the process's open descriptors equal baseline + listener + 2 per still-connected client; for the forking server also: n "
+        "clients leave while child-exit notifications are held back (signal mask in the helper), the server is then notified once, "
+        "and no exited child may remain in the process table; a one-shot server has "
         "exactly one on_connect, its start() returns when that client leaves, and it refuses afterwards. non-trivial = "
         "close() while >= 1 client is connected, or >= 2 departures (one abrupt) before an audit. distinct by history hash.")
 ASSUMPTIONS = ["real sockets, OS-scheduled threads; 'eventually' conditions are awaited up to a 10 s bound and a miss is confirmed "
@@ -101,9 +105,37 @@ def run_history(case):
             elif len([e for e in fx.events if e[0] == "disconnect"]) > len([e for e in fx.events if e[0] == "connect"]):
                 problems.append(("hook", "more disconnect hooks than connections", None))
 
-        def close_server():
+        def close_server(during_accept=False):
             stats["connected_at_close"] = len(clients)
-            why = fx.close_server()
+            if during_accept:
+                # close() runs to completion between the listener handing out a connection and the accept loop seeing it
+                stats["close_during_accept"] = 1
+                try:
+                    # connections are accepted in arrival order: once this throw-away client has been served, nothing that
+                    # connected earlier (flash clients) is still waiting in the listener's queue
+                    tmp = fx.connect_good()
+                    tmp.root.whoami()
+                    tmp.close()
+                except Exception as ex:
+                    problems.append(("client-failed", "connect: %s" % type(ex).__name__, str(ex)[:100]))
+                    return
+                held = fx.arm_close_during_accept()
+                if not held.entered.wait(servers.BOUND):      # the accept loop is now waiting inside the wrapper
+                    problems.append(("harness", "accept loop never came back to the listener", None))
+                    return
+                try:
+                    late = fx.connect_good()
+                except Exception:
+                    late = None                                # somebody else's connection was handed out first
+                    stats["late_refused"] = 1
+                if not held.done.wait(servers.BOUND):
+                    problems.append(("harness", "the held connection was never handed out", None))
+                    return
+                why = held.err
+                if late is not None:
+                    clients["late"] = (late, None)
+            else:
+                why = fx.close_server()
             fx.closed = True
             if why:
                 problems.append(("close", "server.close(): %s" % why.split("(")[0], why))
@@ -138,7 +170,10 @@ def run_history(case):
                     problems.append(("client-not-terminated", "connected client got %s instead of end-of-stream after server.close()%s" % (r[0], where),
                                      {"slot": slot, "after_s": r[1]}))
             if inproc and case["server"] != "oneshot":
-                toks = [tok for c, tok in clients.values()]
+                toks = [tok for c, tok in clients.values() if tok is not None]
+                if not servers.wait_until(lambda: len(fx.server.clients) == 0 and not getattr(fx.server, "fd_to_conn", None), 3.0):
+                    problems.append(("leftover", "closed server still holds client sockets or connections",
+                                     [len(fx.server.clients), len(getattr(fx.server, "fd_to_conn", ()))]))
 
                 def hooks_done():
                     return all(sum(1 for e in fx.events if e == ("disconnect", t)) >= 1 for t in toks)
@@ -182,6 +217,11 @@ def run_history(case):
                 audit("mid-history")
             elif op == "close":
                 close_server()
+            elif op == "close_during_accept":
+                if inproc and case["server"] != "oneshot" and case["transport"] == "tcp":   # (a unix listener has no accept timeout)
+                    close_server(during_accept=True)
+                else:
+                    close_server()
         if not problems and case["server"] == "oneshot" and not fx.closed and stats["departures"]:
             # the single client has left: start() must have returned and the server must refuse from now on
             if not servers.wait_until(lambda: not fx.thread.is_alive(), servers.BOUND):
@@ -204,18 +244,77 @@ def run_history(case):
     return problems, stats
 
 
+def run_coalesced(case):
+    """forking server: n clients leave while child-exit notifications are held back, so that the server is told ONCE about
+    n exited children; afterwards no exited child may remain in the process table"""
+    problems = []
+    stats = {"connected_at_close": 0, "departures": 0, "abrupt": 0, "coalesced": 0}
+    fx = servers.Fixture("forking", case["transport"], False, gate_sigchld=True)
+    conns = []
+    try:
+        for _ in case["leave"]:
+            c = fx.connect_good()
+            c.root.whoami()
+            conns.append(c)
+        n = len(conns)
+        if not servers.wait_until(lambda: len(fx.helper_cmd("children") or ()) == n, 5.0):
+            return [("harness", "forking helper does not have one child per client", fx.helper_cmd("children"))], stats
+        for c, abrupt in zip(conns, case["leave"]):
+            stats["departures"] += 1
+            try:
+                if abrupt:
+                    stats["abrupt"] += 1
+                    servers.abrupt_close(c._channel.stream.sock)
+                    c._closed = True
+                else:
+                    c.close()
+            except Exception:
+                pass
+        if not servers.wait_until(lambda: (fx.helper_cmd("children") or []).count("Z") == n, servers.BOUND):
+            problems.append(("child-alive", "child process of a departed client did not exit", fx.helper_cmd("children")))
+            return problems, stats
+        stats["coalesced"] = n
+        fx.helper_cmd("unblock")
+        if not servers.wait_until(lambda: not fx.helper_cmd("children"), 5.0):
+            problems.append(("leftover", "forking server leaves exited children of departed clients in the process table",
+                             {"children": fx.helper_cmd("children"), "clients": n}))
+        why = fx.accepting()
+        if why:
+            problems.append(("client-failed", "after the departures: " + why, None))
+    except Exception as ex:
+        problems.append(("client-failed", "connect: %s" % type(ex).__name__, str(ex)[:100]))
+    finally:
+        for c in conns:
+            try:
+                c._closed = True
+                c._channel.close()
+            except Exception:
+                pass
+        fx.stop()
+    return problems, stats
+
+
 def check(case, rec):
-    problems, stats = run_history(case)
+    run = run_coalesced if "leave" in case else run_history
+    problems, stats = run(case)
     if problems:
-        again, _ = run_history(case)        # liveness-type observations are confirmed in isolation
+        again, _ = run(case)        # liveness-type observations are confirmed in isolation
         if not again:
             rec.count("inconclusive: not reproduced in isolation")
             problems = []
         else:
             problems = again
-    nontrivial = stats["connected_at_close"] >= 1 or (stats["departures"] >= 2 and stats["abrupt"] >= 1) or stats.get("flash", 0) > 0
+    nontrivial = stats.get("close_during_accept") or stats["connected_at_close"] >= 1 or (stats["departures"] >= 2 and stats["abrupt"] >= 1) or stats.get("flash", 0) > 0
+    if stats.get("coalesced"):
+        nontrivial = True
     classes = ["server:" + case["server"], "transport:" + case["transport"], "connected-at-close:%d" % min(stats["connected_at_close"], 3),
                "abrupt-departures:%d" % min(stats["abrupt"], 2)]
+    if stats.get("close_during_accept") and not stats.get("late_refused"):
+        classes.append("close()-completes-between-listener-accept-and-accept-loop")
+    if stats.get("coalesced"):
+        classes.append("children-exited-before-one-notification:%d" % stats["coalesced"])
+    if stats.get("late_refused"):
+        rec.count("inconclusive: another connection was handed out before the late client's")
     rec.case(case, nontrivial, classes)
     return [Failure(cl, key, case, det) for cl, key, det in problems[:3]]
 
@@ -228,9 +327,14 @@ def cases(kinds):
     body = st.lists(step, min_size=1, max_size=12)
     constructed = st.tuples(st.lists(step, max_size=4), st.booleans(), st.lists(step, max_size=4)).map(
         lambda t: [["connect", 0], ["connect", 1], ["connect", 2]] + t[0] + [["leave", 0, t[1]], ["leave", 1, not t[1]], ["audit", 0]] + t[2])
-    tail = st.sampled_from([[["close", 0]], [], [["audit", 0], ["close", 0]]])
-    return st.fixed_dictionaries({"server": st.sampled_from(kinds), "transport": st.sampled_from(["tcp", "tcp", "unix"]),
+    tail = st.sampled_from([[["close", 0]], [], [["audit", 0], ["close", 0]], [["close_during_accept", 0]]])
+    hist = st.fixed_dictionaries({"server": st.sampled_from(kinds), "transport": st.sampled_from(["tcp", "tcp", "unix"]),
                                   "steps": st.tuples(st.one_of(body, constructed), tail).map(lambda t: t[0] + t[1])})
+    if kinds == ["forking"]:
+        coalesced = st.fixed_dictionaries({"server": st.just("forking"), "transport": st.sampled_from(["tcp", "unix"]),
+                                           "leave": st.lists(st.booleans(), min_size=2, max_size=4)})
+        return st.one_of(hist, hist, coalesced)
+    return hist
 
 
 def plan(tier, scale):
